@@ -2,7 +2,7 @@
 
 CHECK = {
     "harnesses": [
-        {"exe": "c14_scaling", "flavour": "plain", "cases": (100000, 2000000), "procs": (8, 14), "subs": ["scaling"]},
+        {"exe": "c14_scaling", "flavour": "plain", "cases": (250000, 2000000), "procs": (8, 14), "subs": ["scaling"]},
     ],
     "min_nontrivial": (20000, 400000),
     "timeout": (900, 7200),
